@@ -1162,7 +1162,8 @@ class DefaultLoadBalancingPolicy(WrapperPolicy):
 
         # TODO remove next major since execute(..., host=XXX) is now available
         addr = getattr(query, 'target_host', None) if query else None
-        target_host = self._cluster_metadata.get_host(addr)
+        # without a target address there is nothing to look up (None would match a host whose rpc address is not known yet)
+        target_host = self._cluster_metadata.get_host(addr) if addr else None
 
         child = self._child_policy
         if target_host and target_host.is_up:
